@@ -84,6 +84,12 @@ func c14Run(c *Ctx) {
 	if c.Idx%8 == 6 {
 		c14OverlappingBacking(c)
 	}
+	if c.Idx%8 == 2 {
+		c14SameObject(c)
+	}
+	if c.Idx%8 == 4 {
+		c14Dispatch(c)
+	}
 	nEx := c14Exhaustive()
 	exCases := (nEx + c14PairsPerCase - 1) / c14PairsPerCase
 	for k := 0; k < c14PairsPerCase; k++ {
@@ -386,6 +392,94 @@ func c14OverlappingBacking(c *Ctx) {
 		}
 		if !ref.ShapeEq([]int(ta.Shape()), sa) || !ref.ShapeEq([]int(tb.Shape()), sb) {
 			c.Violation(which+":source-modified", "operands over one buffer: shapes afterwards %v and %v", ta.Shape(), tb.Shape())
+		}
+	}
+}
+
+// c14SameObject: one tensor object at both operand positions (x op x): both broadcast
+// operands are that tensor's elements under its own shape, and the object is left as it is.
+func c14SameObject(c *Ctx) {
+	r := c.R
+	sa := r.Shape(0, 5, 4, 120)
+	dt := gen.Data13[r.Intn(len(gen.Data13))]
+	a := r.Tensor(dt, sa, gen.FillUnique, 0)
+	if len(a.Bits) == 0 {
+		return
+	}
+	c.SetCase("broadcast of one tensor object %v with itself (%v)", sa, dt)
+	c.Count("one-object-at-both-positions", 1)
+	for _, which := range []string{"multidir", "unidir"} {
+		t := mon.ToTensor(a)
+		fp := mon.Fp(t)
+		o := mon.Capture(nil, func() ([]tensor.Tensor, error) {
+			var x, y tensor.Tensor
+			var err error
+			if which == "multidir" {
+				x, y, err = ops.MultidirectionalBroadcast(t, t)
+			} else {
+				x, y, err = ops.UnidirectionalBroadcast(t, t)
+			}
+			if err != nil {
+				return nil, err
+			}
+			return []tensor.Tensor{x, y}, nil
+		})
+		c.Eval(1)
+		if v := Judge(Expect{Kind: MustEqual, Mode: CmpBits, Want: Exact(a, a)}, o); !v.OK {
+			c.Violation(which+":"+v.Kind, "one tensor object %v at both positions: %s", sa, trunc(v.Detail, 400))
+		}
+		if ok, what := fp.Equal(mon.Fp(t)); !ok {
+			c.Violation(which+":source-modified", "one tensor object %v at both positions was modified: %s", sa, what)
+		}
+	}
+}
+
+// c14Dispatch: the dispatching helper ops.ApplyBinaryOperation hands its operation the
+// operands broadcast the way the option says: unidirectional means the first operand's
+// shape (or an error), multidirectional the common shape, none the operands as they are.
+func c14Dispatch(c *Ctx) {
+	r := c.R
+	sa := r.Shape(0, 4, 4, 60)
+	sb := compatibleWith(r, sa)
+	if r.Chance(0.3) {
+		sb = r.Shape(0, 4, 4, 60)
+	}
+	if r.Bool() {
+		sa, sb = sb, sa
+	}
+	a, b := r.Tensor(ref.F32, sa, gen.FillUnique, 0), r.Tensor(ref.F32, sb, gen.FillUnique, 0)
+	if len(a.Bits) == 0 || len(b.Bits) == 0 {
+		return
+	}
+	want, werr := ref.BroadcastShape(sa, sb)
+	c.SetCase("ApplyBinaryOperation on %v and %v under each broadcast option", sa, sb)
+	c.Count("dispatch-helper-pairs", 1)
+	for _, opt := range []ops.BroadcastType{ops.NoBroadcasting, ops.UnidirectionalBroadcasting, ops.MultidirectionalBroadcasting} {
+		var gotA, gotB []int
+		o := mon.Capture(nil, func() ([]tensor.Tensor, error) {
+			_, err := ops.ApplyBinaryOperation(mon.ToTensor(a), mon.ToTensor(b), func(A, B tensor.Tensor) (tensor.Tensor, error) {
+				gotA, gotB = append([]int{}, A.Shape()...), append([]int{}, B.Shape()...)
+				return A, nil
+			}, opt)
+			return nil, err
+		})
+		c.Eval(1)
+		expA, expB, mustErr := sa, sb, false
+		switch opt {
+		case ops.UnidirectionalBroadcasting:
+			expA, expB, mustErr = sa, sa, !ref.UniBroadcastable(sa, sb)
+		case ops.MultidirectionalBroadcasting:
+			expA, expB, mustErr = want, want, werr != nil
+		}
+		switch {
+		case o.Kind == mon.Panic:
+			c.Violation("dispatch:panic", "option %d on %v and %v: %s", opt, sa, sb, o.Describe())
+		case mustErr && o.Kind != mon.Error:
+			c.Violation("dispatch:accepted-invalid", "option %d on %v and %v: the operation received %v and %v, an error was due", opt, sa, sb, gotA, gotB)
+		case !mustErr && o.Kind == mon.Error:
+			c.Violation("dispatch:refused-valid", "option %d on %v and %v: %v", opt, sa, sb, o.Err)
+		case !mustErr && (!ref.ShapeEq(gotA, expA) || !ref.ShapeEq(gotB, expB)):
+			c.Violation("dispatch:wrong-shape", "option %d on %v and %v: the operation received %v and %v, expected %v and %v", opt, sa, sb, gotA, gotB, expA, expB)
 		}
 	}
 }
